@@ -105,6 +105,11 @@ def coq_ty(ct):
         return '(Z * Z)'
     raise TranslationError('coq_ty: unsupported type %r' % (ct,))
 
+COQ_RESERVED = {'mod', 'in', 'end', 'at', 'as', 'fun', 'fix', 'using', 'where', 'with', 'return', 'Type', 'Set', 'Prop'}
+def coq_ident(nm):
+    """C18: a C++ parameter whose name is a Gallina keyword (UIntMath::Ceil(value, mod)) gets a trailing underscore"""
+    return nm + '_' if nm in COQ_RESERVED else nm
+
 def skip_wrappers(n):
     while n.get('kind') in ('ParenExpr', 'ExprWithCleanups', 'MaterializeTemporaryExpr', 'ConstantExpr',
                             'CXXBindTemporaryExpr', 'SubstNonTypeTemplateParmExpr') and n.get('inner'):
@@ -154,21 +159,33 @@ class Fn:
         q = decl['type']['qualType']
         self.is_const = bool(re.search(r'\)\s*const', q))
         self.ret_ct = ctype_of_str(q.split('(')[0].strip()) if not self.ret_override() else self.ret_override()
+        if self.ret_ct[0] == 'other' and 'pair<' in self.ret_ct[1]:   # C18: std::pair<size_t, size_t> result -> (Z * Z)
+            self.ret_ct = ('pair',)
         self.params = []    # (name, coq_ty)
         self.env = {}       # name -> ctype
+        # C16: "out_params": {"F": ["a","b"]} – reference out-parameters of a void function: not inputs, the
+        # function returns the tuple (a, b) of their final values (a read before the first write is an unbound
+        # Gallina variable = broken tie)
+        self.outp = list(cfg.get('out_params', {}).get(self.name, []))
         for p in decl.get('inner', []):
             if p['kind'] == 'ParmVarDecl':
                 nm = p.get('name')
                 if nm is None or nm in self.skipp:
+                    continue
+                if nm in self.outp:
+                    self.env[nm] = ctype(p)
                     continue
                 if nm in self.functors:
                     mode = self.functors[nm]
                     if mode == 'value':
                         self.params.append((nm, 'Z')); self.env[nm] = ('u', 64)
                     continue
+                nm = coq_ident(nm)
                 ct = ctype(p)
                 if ct[0] == 'other' and 'pair' in ct[1]:
                     ct = ('pair',)
+                if ct[0] == 'other' and ct[1].split('::')[-1] in getattr(ctx, 'enum_types', ()):   # C05: "enum_types"
+                    ct = ('s', 32)
                 self.env[nm] = ct
                 self.params.append((nm, coq_ty(ct)))
         self.extra_params = []   # opaque locals lifted to parameters
@@ -267,14 +284,20 @@ class Fn:
     def ref(self, n):
         rd = n['referencedDecl']; nm = rd['name']
         if rd['kind'] in ('ParmVarDecl',):
+            nm = coq_ident(nm)
             if nm not in self.env:
                 raise TranslationError(f'parameter {nm} is skipped/untyped but used in {self.name}')
             return nm
         if rd['kind'] == 'VarDecl':
+            if nm in getattr(self, 'aliases', {}):   # C12: `uint8_t& r = field[idx];` – a read of r is a read of the element
+                b, ix = self.aliases[nm]
+                return f'({b} {ix})'
             if nm in self.env:
                 return nm
             return self.static_const(nm, rd)
         if rd['kind'] == 'EnumConstantDecl':
+            if nm in getattr(self.ctx, 'enum_consts', {}):   # C05: value read from the EnumDecl of a configured enum type
+                return '(%d)' % self.ctx.enum_consts[nm]
             raise TranslationError('enum constant ' + nm)
         if rd['kind'] == 'NonTypeTemplateParmDecl':
             raise TranslationError('template parameter reference ' + nm)
@@ -308,6 +331,9 @@ class Fn:
     def member(self, n):
         nm = n['name']
         base = skip_wrappers(n['inner'][0]) if n.get('inner') else None
+        while base is not None and base['kind'] == 'ImplicitCastExpr' and base.get('castKind') in (
+                'UncheckedDerivedToBase', 'DerivedToBase') and base.get('inner'):   # C09: field of a base class (Params::blockSize)
+            base = skip_wrappers(base['inner'][0])
         # this->field or field
         if base is None or base['kind'] == 'CXXThisExpr':
             if nm in self.ctx.fields:
@@ -382,6 +408,8 @@ class Fn:
 
     def call_args(self, fi, args):
         out = []
+        if getattr(fi, 'outp', None):
+            raise TranslationError('call to %s which has out-parameters (not supported at call sites)' % fi.name)
         pnodes = [p for p in fi.d.get('inner', []) if p['kind'] == 'ParmVarDecl']
         for p, a in zip(pnodes, args):
             if p.get('name') is None or p.get('name') in fi.skipp or p.get('name') in fi.functors:
@@ -395,6 +423,13 @@ class Fn:
         return list(self.fieldnames)
 
     def opcall(self, n):
+        # C12: `functor()` with no arguments where the functor parameter is configured as "value": its result is the parameter
+        if len(n.get('inner', [])) == 2:
+            callee = skip_wrappers(n['inner'][1])
+            while callee.get('kind') == 'ImplicitCastExpr':
+                callee = skip_wrappers(callee['inner'][0])
+            if callee.get('kind') == 'DeclRefExpr' and self.functors.get(callee['referencedDecl']['name']) == 'value':
+                return callee['referencedDecl']['name']
         raise TranslationError('operator call')
 
     def binop(self, op, ln, rn, ct):
@@ -609,6 +644,10 @@ class Fn:
             if s.get('inner'):
                 return self.ret_stmt(s['inner'][0], jc)
             return jc['ret']('tt')
+        if kind == 'GallinaReturn':   # C09: synthetic return of a "prefix" translation
+            for nm in re.findall(r'\w+', s['text']):
+                if nm not in self.env: raise TranslationError('prefix return: %s is not in scope' % nm)
+            return jc['ret'](s['text'])
         if kind == 'BreakStmt':
             if not jc.get('brk'): raise TranslationError('break outside loop')
             return jc['brk']()
@@ -642,7 +681,11 @@ class Fn:
             v = vs[i]; nm = v['name']
             if nm in self.env and nm not in self.opaque:
                 raise TranslationError(f'shadowing/redeclaration of {nm} in {self.name}')
-            if v.get('storageClass') == 'static':
+            if v.get('storageClass') == 'static' and not (
+                    # C17: `static const size_t halfSize = <constant expr>;` – a const integer static local with a
+                    # scalar initialiser is an ordinary immutable let-binding (falls through to the code below)
+                    re.search(r'\bconst\b', v.get('type', {}).get('qualType', '')) and ctype(v)[0] in ('u', 's')
+                    and not any(x.get('kind') == 'InitListExpr' for x in v.get('inner', []))):
                 self.static_table(v)
                 return go(i + 1)
             ct = ctype(v)
@@ -952,6 +995,16 @@ class Fn:
         if not body:
             raise TranslationError('no body for ' + self.name)
         body = body[0]
+        # C09: "prefix": {"F": {"until": "local", "return": ["a","b"]}} - translate only the statements before the
+        # declaration of `local` and return the tuple of the named locals (the rest of F is modelled elsewhere)
+        pf = self.ctx.cfg.get('prefix', {}).get(self.name)
+        if pf:
+            cut = [i for i, st in enumerate(body.get('inner', [])) if st.get('kind') == 'DeclStmt' and
+                   any(v.get('name') == pf['until'] for v in st.get('inner', []))]
+            if not cut:
+                raise TranslationError('prefix: no declaration of %s in %s' % (pf['until'], self.name))
+            ret_node = {'kind': 'GallinaReturn', 'text': self.tup(list(pf['return']))}
+            body = dict(body, inner=body['inner'][:cut[0]] + [ret_node])
         # pre-scan: does the function need the outcome monad?
         self.nonsimple = self.prescan(body)
         wf_guess = None
@@ -964,7 +1017,12 @@ class Fn:
             return f'Ok {self.tup([v] + wf)}'
         self.out_fields_final = None
         jc = {'ret': (lambda v: f'RETURN[{v}]'), 'brk': None, 'cont': None}
-        txt = self.stmts([body], lambda: 'RETURN[tt]', jc)
+        if self.outp:   # C16: void function with reference out-parameters returns their tuple
+            if self.ret_ct[0] != 'void':   # C09: non-void function returns (result, out-params...)
+                jc['ret'] = lambda v: f'RETURN[{self.tup([v] + self.outp)}]'
+            else:
+                jc['ret'] = lambda v: f'RETURN[{self.tup(self.outp)}]'
+        txt = self.stmts([body], lambda: jc['ret']('tt'), jc)
         wf = self.out_fields()
         def fix_ret(m):
             v = m.group(1)
@@ -1078,6 +1136,25 @@ def dump_ast(cfg, repo='/repo'):
         raise TranslationError('clang failed: ' + r.stderr[-2000:])
     return r.stdout
 
+def load_enums(cfg, repo='/repo'):
+    """C05: "enum_types": ["ArrayGrowCause"] - enumerator values are read from the EnumDecl in the current headers"""
+    consts = {}
+    for en in cfg.get('enum_types', []):
+        c2 = dict(cfg); c2['filter'] = en
+        found = False
+        for o in load_objs(dump_ast(c2, repo)):
+            if o.get('kind') == 'EnumDecl' and o.get('name') == en and o.get('inner'):
+                found = True; nxt = 0
+                for m in o['inner']:
+                    if m.get('kind') != 'EnumConstantDecl':
+                        continue
+                    vals = re.findall(r'"value": "(-?\d+)"', json.dumps(m.get('inner', [])))
+                    v = int(vals[0]) if vals else nxt
+                    consts[m['name']] = v; nxt = v + 1
+        if not found:
+            raise TranslationError('enum type %s not found' % en)
+    return consts
+
 def translate_group(cfg, ast_text=None, repo='/repo'):
     """returns Gallina text; raises TranslationError"""
     if ast_text is None:
@@ -1085,6 +1162,8 @@ def translate_group(cfg, ast_text=None, repo='/repo'):
     objs = load_objs(ast_text)
     spec = find_spec(objs, cfg)
     ctx = Ctx(cfg)
+    ctx.enum_types = set(cfg.get('enum_types', []))
+    ctx.enum_consts = load_enums(cfg, repo) if ctx.enum_types else {}
     for m in spec.get('inner', []):
         if m.get('kind') == 'VarDecl':
             ctx.static_decls[m['name']] = m
@@ -1136,14 +1215,19 @@ def translate_group(cfg, ast_text=None, repo='/repo'):
         ctx.fninfo[name] = f
         bodies.append(txt)
     out = ['(* GENERATED by tools/cxx2coq.py from %s (class %s) -- do not edit *)' % (os.path.basename(cfg['tu']), cfg['class']),
-           PRELUDE_IMPORT]
+           PRELUDE_IMPORT + ''.join(l + '\n' for l in cfg.get('imports', []))]   # C16: "imports": extra Require lines
     sym = [c for c in ctx.const_order if ctx.consts[c][1] is None]
     conc = [c for c in ctx.const_order if ctx.consts[c][1] is not None]
     sec = cfg['name'] + '_sec'
+    secvars = cfg.get('section_vars', {})   # C09: abstract memory-read functions etc. used by "primitives": name -> Gallina type
+    if secvars and not sym:
+        sym = ['']
     if sym:
         out.append(f'Section {sec}.')
         for c in sym:
-            out.append(f'Variable {c} : {ctx.consts[c][0]}.')
+            if c: out.append(f'Variable {c} : {ctx.consts[c][0]}.')
+        for c, t in secvars.items():
+            out.append(f'Variable {c} : {t}.')
     for c in conc:
         out.append(f'Definition {c} : {ctx.consts[c][0]} := {ctx.consts[c][1]}.')
     for nm, vals in ctx.static_tables.items():
